@@ -4,6 +4,7 @@ import (
 	"bytes"
 	"fmt"
 	"go/ast"
+	"go/constant"
 	"go/printer"
 	"go/token"
 	"go/types"
@@ -107,6 +108,13 @@ func (p *Program) reservedSet(fn *ssa.Function, depth int) (map[string]bool, boo
 					}
 				}
 			}
+		case *ssa.Lookup, *ssa.Extract:
+			// `set[k] || …` : the branch on a constant-set membership
+			if returnsTrue(ifi.Block().Succs[0]) {
+				for k := range p.constSetKeys(c, par) {
+					out[k] = true
+				}
+			}
 		}
 	})
 	// `return f(k) || k == "x"` without branches on f: calls whose result is returned
@@ -130,9 +138,48 @@ func (p *Program) reservedSet(fn *ssa.Function, depth int) (map[string]bool, boo
 					out[s] = true
 				}
 			}
+			// membership in a package-level constant set: `return reserved[k]` (map[string]bool) or
+			// `_, ok := reserved[k]; return ok` (map[string]struct{})
+			for k := range p.constSetKeys(o, par) {
+				out[k] = true
+			}
 		}
 	})
 	return out, len(out) > 0
+}
+
+// constSetKeys: v is the membership test of key in a package-level constant set - `set[key]` of a map[string]bool
+// (keys mapped to true) or the comma-ok flag of `set[key]` (all keys); nil otherwise.
+func (p *Program) constSetKeys(v ssa.Value, key ssa.Value) map[string]bool {
+	lk, _ := v.(*ssa.Lookup)
+	commaOK := false
+	if ex, isEx := v.(*ssa.Extract); isEx && ex.Index == 1 {
+		if l2, isLk := ex.Tuple.(*ssa.Lookup); isLk && l2.CommaOk {
+			lk, commaOK = l2, true
+		}
+	}
+	if lk == nil || lk.Index != key {
+		return nil
+	}
+	u, isU := lk.X.(*ssa.UnOp)
+	if !isU || u.Op != token.MUL {
+		return nil
+	}
+	g, isG := u.X.(*ssa.Global)
+	if !isG {
+		return nil
+	}
+	t := p.constTableOf(g)
+	if t == nil || !t.isMap {
+		return nil
+	}
+	out := map[string]bool{}
+	for k, c := range t.byStr {
+		if commaOK || (c.Kind() == constant.Bool && constant.BoolVal(c)) {
+			out[k] = true
+		}
+	}
+	return out
 }
 
 type mdGate struct {
